@@ -733,15 +733,6 @@ func (f *STFS) Rename(oldname, newname string) error {
 	oldname = cleanName(oldname)
 	newname = cleanName(newname)
 
-	// Renaming an entry to itself is a no-op, moving it into its own subtree is impossible
-	if oldname == newname {
-		return nil
-	}
-
-	if strings.HasPrefix(newname, strings.TrimSuffix(oldname, "/")+"/") {
-		return os.ErrInvalid
-	}
-
 	f.ioLock.Lock()
 	defer f.ioLock.Unlock()
 
@@ -777,6 +768,15 @@ func (f *STFS) Rename(oldname, newname string) error {
 		} else {
 			return err
 		}
+	}
+
+	// Renaming an entry to itself is a no-op, moving it into its own subtree is impossible
+	if oldname == newname {
+		return nil
+	}
+
+	if strings.HasPrefix(newname, strings.TrimSuffix(oldname, "/")+"/") {
+		return os.ErrInvalid
 	}
 
 	if parent, err := inventory.Stat(
